@@ -109,6 +109,21 @@ def explore(facts, max_depth=6, bursts=None):
                 # sibling's Reregister) must leave a child that asked to be disabled alone
                 if st2.variant != "Disabled" or any(ev[0] in ("child", "child-failed") for ev in events):
                     viol.append((cell, "a re-registration re-enables a child that asked to be disabled (only the wrapper's own register() may do that): its callback runs again without enable()"))
+            if method == "map":
+                # map() gives the user access to the *current* child: while a replacement is pending that is the new one
+                # (what is done to the outgoing child is lost when it is dropped at the next registration)
+                cur_m = st.fields.get("new") if st.variant == "Replace" else st.fields.get("0")
+                for ev in events:
+                    if ev[0] == "user" and ev[1] is not None and cur_m is not None and ev[1] != cur_m:
+                        viol.append((cell, "map() hands the user the outgoing child instead of the current one: changes made through it (signals added, a deadline set) are applied to a source that is about to be dropped"))
+            if method in ("register", "reregister") and st.variant == "Keep":
+                # the kept child takes part in every (re)registration of the wrapper: token factories are positional
+                # (a child that draws no token shifts its siblings onto its own), a changed interest / deadline of the
+                # child only takes effect through its own (re)registration, and enable() after disable() goes through
+                # register() with the wrapper still in Keep
+                cur0 = st.fields.get("0")
+                if not any(ev[0] == "child" and ev[1] in ("register", "reregister") and ev[2] == cur0 for ev in events) and not any(ev[0] == "child-failed" for ev in events):
+                    viol.append((cell, "%s() of the wrapper does not %s the kept child: its tokens, interest or deadline are not renewed (a wrapped timer is not re-armed, enable() after disable() leaves the child out of the poller, a sibling is handed the child's token)" % (method, method)))
             if method == "process_events":
                 pa = ret[1] if ret and ret[0] == "result" else None
                 if not pa or pa[0] != "pa" or pa[1] not in ("Continue", "Reregister"):
